@@ -295,3 +295,55 @@ CHECKS = [
 from vgv import worldedit  # noqa: E402
 
 CHECKS.append(worldedit.make_check('C11'))
+
+
+# ------------------------------------------------------------------ an obstacle on every cell of a very wide / very tall world
+
+SWEEP_LENGTHS = {'quick': [1030], 'thorough': [1030, 1100, 2050, 4100]}
+
+
+def enum_sweep(tier, shard, nshards):
+    i = 0
+    for L in SWEEP_LENGTHS[tier]:
+        for tall in (False, True):
+            for part in range(8):
+                i += 1
+                if i % nshards == shard:
+                    yield {'L': L, 'tall': tall, 'part': part, 'parts': 8}
+
+
+def oracle_sweep(case, ctx):
+    """one all-floor world of 2 x L (or L x 2) cells; a single obstacle is put on every cell in turn and `move_obstacles` is called in
+    place: it must end on one of its four in-grid neighbours (all free), the cell it left is floor, nothing else changes."""
+    from gym_gridverse.geometry import Position
+    from gym_gridverse.grid_object import Floor, MovingObstacle
+    L = case['L']
+    h, w = (L, 2) if case['tall'] else (2, L)
+    s = objs.build_state({'grid': [['F'] * w for _ in range(h)], 'agent': [0, 0, 'F', '_']})
+    mv = REG['move_obstacles']
+    rng = make_rng(L)
+    A = objs.action('MOVE_FORWARD')
+    # the first cells are always visited (whatever is remembered about them is in place before the far cells are asked)
+    cells = [(y, x) for y in range(h) for x in range(w)]
+    low = [c for c in cells if (c[0] if case['tall'] else c[1]) < 32]          # the beginning of every row (column) of the long axis
+    rest = [c for c in cells if c not in set(low)]
+    mine = low + [c for k, c in enumerate(rest) if k % case['parts'] == case['part']]
+    for (y, x) in mine:
+        s.grid[Position(y, x)] = MovingObstacle()
+        mv(s, A, rng=rng)
+        neigh = [(y + dy, x + dx) for dy, dx in ((-1, 0), (1, 0), (0, -1), (0, 1)) if 0 <= y + dy < h and 0 <= x + dx < w]
+        where = [q for q in neigh + [(y, x)] if isinstance(s.grid[Position(*q)], MovingObstacle)]
+        if len(where) != 1 or where[0] == (y, x):
+            # look further away before reporting
+            far = [(a, b) for a in range(h) for b in range(w) if isinstance(s.grid[a, b], MovingObstacle)]
+            ctx.fail(f'{h}x{w} all-floor world: the obstacle put on {(y, x)} is now on {far[:3]} (free neighbours: {neigh})', {'kind': 'obstacle_rule', 'aspect': 'coordinate_sweep'})
+        q = where[0]
+        if not isinstance(s.grid[Position(y, x)], Floor):
+            ctx.fail(f'{h}x{w} world: the cell {(y, x)} an obstacle left holds {type(s.grid[Position(y, x)]).__name__}', {'kind': 'obstacle_rule', 'aspect': 'coordinate_sweep'})
+        s.grid[Position(*q)] = Floor()
+    ctx.ev.case(case, nt=True, classes=[f'length:{L}'])
+
+
+CHECKS.append(Check('coordinate_sweep', oracle_sweep, enumerate=enum_sweep, shards={'quick': 16, 'thorough': 16}, exhaustive=True,
+                    rule='all-floor worlds of 2 x L and L x 2 cells (L = 1030; thorough also 1100, 2050, 4100): a single obstacle on every cell in turn, moved in place: it ends on one of its four in-grid neighbours',
+                    required=['length:1030']))
